@@ -195,6 +195,12 @@ def normalise(F, fn, keep=(), depth=3, _stack=()):
             if cs and F.fns.get(cs["id"]) is not None and depth > 0 and cs["id"] not in _stack:
                 sites.append((bb, "closure-call", F.fns[cs["id"]]))
                 continue
+            # `f(args)` on a function parameter of a helper that has been put into its caller: the closure is known now
+            if p.endswith(("FnOnce::call_once", "FnMut::call_mut", "Fn::call")) and t["args"] and depth > 0:
+                fv = function_value(F, cur, fn.crate, t["args"][0])
+                if fv is not None and fv[0] == "closure" and fv[1].id not in _stack:
+                    sites.append((bb, "closure-call", fv[1]))
+                    continue
             for suf, name in STD.items():
                 if p.endswith(suf):
                     sites.append((bb, name, None))
